@@ -655,6 +655,27 @@ func callWorker(req N) (resp N) {
 			return res
 		}),
 	}
+	// a host callback that keeps the VM's clone-call function and invokes it with a context of its OWN
+	// (no OS in it), as modules/http does with the request's context
+	globals["__clonecall"] = object.NewBuiltin("__clonecall", func(ctx context.Context, args ...object.Object) object.Object {
+		if len(args) != 1 {
+			return object.Errorf("__clonecall: expected 1 argument")
+		}
+		fn, ok := args[0].(*object.Function)
+		if !ok {
+			return object.Errorf("__clonecall: expected a function")
+		}
+		cc, found := object.GetCloneCallFunc(ctx)
+		if !found {
+			return object.Errorf("__clonecall: no clone-call function in the context")
+		}
+		// not cancelled when the call returns: files opened under a context are closed when it ends
+		res, err := cc(context.WithoutCancel(baseCtx), fn, nil)
+		if err != nil {
+			return object.NewError(err)
+		}
+		return res
+	})
 	opts := []risor.Option{risor.WithConcurrency(), risor.WithLocalImporter(modDir), risor.WithGlobals(globals)}
 	if src == "withos" || src == "withoswarm" {
 		opts = append(opts, risor.WithOS(host))
